@@ -490,6 +490,56 @@ def check_reload(run):
             model.deregister_model(model.models_available["nv_dev"])
 
 
+def rekey_cases(run):
+    """a module registered under one key, its key attribute changed, the
+    module registered again (two entries now), then the entries deregistered
+    through the objects register_model returned: each removes exactly the key
+    it was registered under, and the registry returns to where it started"""
+    from nanite import model
+    for order in ("first-then-second", "second-then-first", "first-only"):
+        start = set(model.models_available)
+        mod = base_module("nv_rekey_a")
+        key = f"rekey:{order}"
+        run.case({"rekey": order}, kind="rekey")
+        why = None
+        try:
+            md_a = model.register_model(mod)
+            mod.model_key = "nv_rekey_b"
+            mod.model_name = "harness model rekeyed"
+            md_b = model.register_model(mod)
+            both = {"nv_rekey_a", "nv_rekey_b"} <= set(model.models_available)
+            if not both:
+                why = "after registering under two keys one of them is missing"
+            else:
+                seq = {"first-then-second": [md_a, md_b],
+                       "second-then-first": [md_b, md_a],
+                       "first-only": [md_a]}[order]
+                for md in seq:
+                    k_ = md.model_key
+                    before = set(model.models_available)
+                    try:
+                        model.deregister_model(md)
+                    except BaseException as e:
+                        why = (f"deregistering the model registered as "
+                               f"{k_!r} raised {type(e).__name__}: {e}")
+                        break
+                    if set(model.models_available) != before - {k_}:
+                        gone = before - set(model.models_available)
+                        why = (f"deregistering the model registered as {k_!r}"
+                               f" removed {sorted(gone)}")
+                        break
+        except BaseException as e:
+            why = f"raised {type(e).__name__}: {e}"
+        for k_ in ("nv_rekey_a", "nv_rekey_b"):
+            model.models_available.pop(k_, None)
+        if why is None and set(model.models_available) != start:
+            why = "the registry did not return to its initial contents"
+        if why:
+            run.failing(SITE_R, key, f"{order}: {why}",
+                        payload={"kind": "rerun"},
+                        theorem="C18_deregister_exact")
+
+
 def check_sequences(run):
     """random register / deregister / load sequences against rstep"""
     from nanite import model
@@ -724,6 +774,7 @@ def check(run):
     check_reload(run)
     check_own_functions(run)
     check_sequences(run)
+    rekey_cases(run)
     check_seeding(run)
     run.exhaustive = True
     run.rule = ("every single-fault mutant (delete / shorten / lengthen / "
